@@ -244,3 +244,30 @@ def m_method_reshape_of(t: T, src: T) -> bool:
     if len(dims) == 1 and dims[0].op in ("tuple", "list"):
         dims = list(dims[0].args)
     return len(dims) == 3 and dims[1] is dims[2]
+
+
+def per_spin_one_body(ctx, cls: str, bfi, rule: str = "SYM-1") -> int:
+    """The builder of an unrestricted propagator stores one half-step one-body propagator per spin sector,
+    exp_h1 = [f(h1[0]), f(h1[1])].  Two identical components mean the down sector is propagated with the up-spin
+    one-body operator: wrong for every Hamiltonian with a spin-dependent one-body term.  (A restricted builder stores a
+    single matrix and is not concerned.)"""
+    from ..symex import array_fn as _afn
+    ev = Evaluator(ctx.p)
+    try:
+        R = ev.result(ev.eval_function(bfi, self_class=cls))
+    except Exception:
+        return 0
+    if R is None:
+        return 0
+    v = strip_wrappers(getitem(R, const("exp_h1")))
+    if v.op == "call" and _afn(v) in ("array", "asarray", "stack") and call_parts(v)[1]:
+        v = strip_wrappers(call_parts(v)[1][0])
+    if v.op not in ("list", "tuple") or len(v.args) != 2:
+        return 0
+    a, b = strip_wrappers(v.args[0]), strip_wrappers(v.args[1])
+    h1 = getitem(sym("ham_data"), const("h1"))
+    reads = {x.args[1].args[0] for x in subterms(v) if x.op == "getitem" and x.args[0] is h1 and x.args[1].op == "const"}
+    ctx.ob(rule, f"{bfi.qualname}: each spin sector gets the propagator of its own one-body operator", not (a is b),
+           f"exp_h1 = [E, E] with E built from h1{sorted(reads)} only: the down determinants are propagated with the up-spin "
+           f"one-body term" if a is b else f"components read h1{sorted(reads)}", bfi)
+    return 1
